@@ -10,6 +10,7 @@ while [ $# -gt 0 ]; do
 done
 cd /repo || exit 2
 if ! git diff --quiet; then echo "/repo has uncommitted changes; refusing"; exit 2; fi
+[ -f "$(dirname "$patch")/patch.rebased.diff" ] && patch="$(dirname "$patch")/patch.rebased.diff"
 if ! git apply --check "$patch" 2>/dev/null; then echo "patch does not apply"; exit 2; fi
 git apply "$patch"
 trap 'git -C /repo checkout -- . ; echo "[reverted]"' EXIT
